@@ -231,7 +231,7 @@ func (r *c5Run) genEvent() c5Event {
 	ev.level = []zerolog.Level{zerolog.InfoLevel, zerolog.ErrorLevel, zerolog.DebugLevel, zerolog.WarnLevel, zerolog.NoLevel}[r.ch.Intn(5)]
 	ev.ops = genOps(r.ch, r.ch.Intn(4), 1, ev.id+"_")
 	if r.ch.Chance(1, 4) {
-		ev.ops = append(ev.ops, fop{Kind: fProbeObj + r.ch.Intn(3), Key: ev.id + "_probe"})
+		ev.ops = append(ev.ops, fop{Kind: fProbeObj + r.ch.Intn(4), Key: ev.id + "_probe"})
 	}
 	ev.probes = r.ch.Chance(1, 2)
 	ev.fin = r.ch.Intn(2)
@@ -319,7 +319,7 @@ func (r *c5Run) genCtxOps(tag string) []fop {
 		ops = append(ops, fop{Kind: fStr, Key: tag + "pad", S: strings.Repeat("p", 100+r.ch.Intn(300))})
 	}
 	if r.ch.Chance(1, 4) {
-		ops = append(ops, fop{Kind: fProbeObj + r.ch.Intn(3), Key: tag + "probe"})
+		ops = append(ops, fop{Kind: fProbeObj + r.ch.Intn(4), Key: tag + "probe"})
 	}
 	return ops
 }
@@ -374,7 +374,9 @@ func (r *c5Run) derive(p *c5Node) *c5Node {
 		n.fromWith = true
 		return n
 	case 1:
-		m.level = []zerolog.Level{zerolog.DebugLevel, zerolog.InfoLevel, zerolog.WarnLevel, zerolog.ErrorLevel}[ch.Intn(4)]
+		// Disabled too: fields added below a disabled node must show up again in a
+		// descendant that re-enables logging
+		m.level = []zerolog.Level{zerolog.DebugLevel, zerolog.InfoLevel, zerolog.WarnLevel, zerolog.ErrorLevel, zerolog.Disabled, zerolog.TraceLevel}[ch.Intn(6)]
 		return r.addNode(p.lg.Level(m.level), m, fmt.Sprintf("n%d.Level(%v)", p.id, m.level))
 	case 2:
 		m.sampler = 1 + ch.Intn(3)
